@@ -201,6 +201,11 @@ Definition step (t : tbl) (o : op) : tbl :=
   match o with OSet k v => hash_set t k v | ODel k => hash_delete t k end.
 Definition run (ops : list op) : tbl := fold_left step ops empty.
 
+(* hashutils.go:MakeHash, the constructor behind (hash k v ..) and the {k:v ..} literal: an empty
+   hash, then HashSet for every pair in turn; NumKeys is whatever those HashSets left *)
+Definition make_hash (pairs : list (K * V)) : tbl :=
+  fold_left (fun t kv => hash_set t (fst kv) (snd kv)) pairs empty.
+
 (* the specification identifies [k] with k in every operation *)
 Definition s_step (s : spec) (o : op) : spec :=
   match o with OSet k v => s_set s (unwrap k) v | ODel k => s_del s (unwrap k) end.
@@ -297,5 +302,6 @@ Definition ztbl := tbl key Z.
 Definition zop := op key Z.
 Definition zstep (ah : key -> Z) : ztbl -> zop -> ztbl := step key Z ceq (kid ah) (khash ah) unwrap.
 Definition zrun (ah : key -> Z) (ops : list zop) : ztbl := run key Z ceq (kid ah) (khash ah) unwrap ops.
+Definition zmake (ah : key -> Z) (pairs : list (key * Z)) : ztbl := make_hash key Z ceq (khash ah) unwrap pairs.
 Definition zs_step (ah : key -> Z) := s_step key Z (kid ah) unwrap.
 Definition zs_run (ah : key -> Z) (ops : list zop) : spec key Z := s_run key Z (kid ah) unwrap ops.
